@@ -41,6 +41,7 @@ def run_scenario(sc: dict[str, Any]) -> dict[str, Any]:
     order: list[str] = sc.get('order') or list(hs)
     use_label = sc.get('label_filter', True)
     sim = Sim(wall_budget=30)
+    sim.world.max_steps = 300_000
     try:
         def project(res, o):
             if res.plural != PLURAL:
@@ -320,7 +321,7 @@ def _objfields(p: dict[str, Any], off: int) -> dict[str, Any]:
 
 
 # --------------------------------------------------------------------------- judging
-_RE_VERDICT = re.compile(r'<<"VERDICT",\s*(\d+),\s*"([^"]*)",\s*(-?\d+),\s*(-?\d+),\s*(\d+),\s*"([^"]*)">>')
+_RE_VERDICT = re.compile(r'<<"VERDICT",\s*(\d+),\s*"([^"]*)",\s*(-?\d+),\s*(-?\d+),\s*(\d+),\s*"([^"]*)",\s*"([^"]*)">>')
 
 
 def _tla_set(xs) -> str:
@@ -371,7 +372,7 @@ def judge(traces: list[dict[str, Any]], rep: Any, name: str = 'Trace_Handling') 
         agg['distinct'] += r.distinct; agg['generated'] += r.generated; agg['wall'] = max(agg['wall'], r.wall)
         got = {}
         for m in _RE_VERDICT.finditer(r.out):
-            got[int(m.group(1))] = dict(id=m.group(2), strict=int(m.group(3)), loose=int(m.group(4)), n=int(m.group(5)), inv=m.group(6))
+            got[int(m.group(1))] = dict(id=m.group(2), strict=int(m.group(3)), loose=int(m.group(4)), n=int(m.group(5)), inv=m.group(6), excuse=m.group(7))
         if len(got) != len(group):
             raise MachineryFailure(f'{name} printed {len(got)} verdicts for {len(group)} traces\n{r.out[-2000:]}')
         for i, t in enumerate(group, start=1):
